@@ -47,7 +47,9 @@ def run(chk, repo):
     chk.attempt(m2, chk, repo)
     chk.attempt(m6, chk, repo)
     chk.attempt(m7, chk, repo)
+    chk.attempt(time_adapters, chk, repo)
     chk.attempt(m3, chk, repo)
+    chk.attempt(decode_forms, chk, repo, covered_by="time_adapters", rules=("C17-M3", "C17-M4"))
     chk.attempt(m5, chk, repo)
     from .common_rules import stateless_constructs
     chk.attempt(stateless_constructs, chk, repo, "C05-F8")
@@ -226,18 +228,6 @@ def m3(chk, repo):
     chk.require(lf.base == "Int64ub", "C17-M3", "signal_data_record.sensor_acquisition_date_microseconds", "microseconds of day are a 64-bit big-endian integer",
                 f"microseconds field is {lf.base}", key="ydus:width")
     dt = repo.module(DT)
-    cls = dt.classes.get("DatetimeYdus")
-    dec = [s for s in cls.body if isinstance(s, ast.FunctionDef) and s.name == "_decode"][0]
-    try:
-        _, got = summarize(dec)
-        _, want = summarize_source(YDUS_SPEC)
-    except Undecidable as e:
-        raise AnalysisError(f"DatetimeYdus._decode outside the fragment: {e}")
-    v = compare_paths(got, want)
-    if v == "incomparable":
-        raise AnalysisError(f"DatetimeYdus._decode has a different shape than its specification: {show_paths(got)[:200]}")
-    chk.require(v == "equal", "C17-M3", f"{dt.relpath}:DatetimeYdus._decode", "midnight of the reference date + obj microseconds",
-                f"DatetimeYdus decodes to {show_paths(got)[:200]}", key="ydus:decode")
     # M4
     chk.rule("C17-M4", "", 2)
     for key in ("signal", "processed"):
@@ -257,19 +247,6 @@ def m3(chk, repo):
                    "volume": ("volume_descriptor.logical_volume_creation_datetime",)}
     for key, fields in TIME_FIELDS.items():
         compare(chk, "C17-M4", L, key, select=lambda p_, fields=fields: p_ in fields)
-    # DatetimeYdms normal form: 1 January of the year + (day-1) days + milliseconds
-    cls = dt.classes.get("DatetimeYdms")
-    dec = [s for s in cls.body if isinstance(s, ast.FunctionDef) and s.name == "_decode"][0]
-    try:
-        _, got = summarize(dec)
-        _, want = summarize_source(YDMS_SPEC)
-    except Undecidable as e:
-        raise AnalysisError(f"DatetimeYdms._decode outside the fragment: {e}")
-    v = compare_paths(got, want)
-    if v == "incomparable":
-        raise AnalysisError(f"DatetimeYdms._decode has a different shape than its specification: {show_paths(got)[:200]}")
-    chk.require(v == "equal", "C17-M4", f"{dt.relpath}:DatetimeYdms._decode", "1 January of obj['year'] + (day_of_year - 1) days + obj['milliseconds'] ms",
-                f"DatetimeYdms no longer builds 1 January of the year plus (day_of_year - 1) days plus the millisecond field: {show_paths(got)[:200]}", key="ydms:decode")
 
 
 LOCAL_TIME_APIS = {"timestamp": "datetime.timestamp() reads a naive datetime in the process's local time zone", "mktime": "time.mktime interprets its argument in local time",
@@ -450,3 +427,76 @@ def m5_syntactic(chk, repo):
     ok = fmt2 is not None and join is not None and fmt2 == f"%Y{join}%m{join}%d" and secs
     chk.require(ok, "C17-M5", f"{pp.relpath}:transform_composite_datetime", f"date text joined with {join!r} parsed by {fmt2!r}, plus seconds_of_day as seconds",
                 f"first-point time uses format {fmt2!r} with join {join!r} (seconds={secs})", key="composite_datetime:format")
+
+
+def decode_forms(chk, repo):
+    """normal forms of the two time adapters' `_decode` (form rule; what they compute is decided by `time_adapters`)"""
+    dt = repo.module(DT)
+    for cname, spec, rule, good, key in (("DatetimeYdus", YDUS_SPEC, "C17-M3", "midnight of the reference date + obj microseconds", "ydus:decode"),
+                                         ("DatetimeYdms", YDMS_SPEC, "C17-M4", "1 January of obj['year'] + (day_of_year - 1) days + obj['milliseconds'] ms", "ydms:decode")):
+        cls = dt.classes.get(cname)
+        if cls is None:
+            raise AnalysisError(f"anchor vanished: {cname}")
+        dec = [s_ for s_ in cls.body if isinstance(s_, ast.FunctionDef) and s_.name == "_decode"][0]
+        try:
+            _, got = summarize(dec)
+            _, want = summarize_source(spec)
+        except Undecidable as e:
+            raise AnalysisError(f"{cname}._decode outside the fragment: {e}")
+        v = compare_paths(got, want)
+        if v == "incomparable":
+            raise AnalysisError(f"{cname}._decode has a different shape than its specification: {show_paths(got)[:200]}")
+        chk.require(v == "equal", rule, f"{dt.relpath}:{cname}._decode", good, f"{cname} decodes to {show_paths(got)[:200]}", key=key)
+
+
+def time_adapters(chk, repo):
+    """C17-M8: `_decode` of the two time adapters evaluated (the checker's interpreter) on representative raw values - first and last
+    day of ordinary and leap years, the last millisecond / microsecond of a day, a reference date that is not at midnight - and asked
+    twice in a row (a decoder that remembers something from the previous record gives itself away): the result is the instant the
+    format defines.  Indifferent to how `_decode` is written"""
+    import datetime
+    from collections import OrderedDict
+    from ..repeval import from_shape, Undecided
+    from ..shapes import Const, DictS, Fn, Interp, NonTermination, Obj, ShapeError, _Raise
+    chk.rule("C17-M8", "the time adapters decode representative raw values to the instants the format defines, whatever was decoded before", 8)
+    dt = repo.module(DT)
+    ydms = [dict(year=2014, day_of_year=1, milliseconds=0), dict(year=2016, day_of_year=60, milliseconds=1), dict(year=2015, day_of_year=60, milliseconds=43200123),
+            dict(year=2016, day_of_year=366, milliseconds=86399999), dict(year=2020, day_of_year=366, milliseconds=5), dict(year=2049, day_of_year=365, milliseconds=86399999),
+            dict(year=2016, day_of_year=1, milliseconds=0), dict(year=2015, day_of_year=1, milliseconds=0)]
+    refs = [datetime.datetime(2016, 2, 29, 13, 14, 15, 250000), datetime.datetime(2015, 12, 31, 23, 59, 59, 999000), datetime.datetime(2014, 1, 1)]
+    ydus = [(r, us) for r in refs for us in (0, 1, 86399999999, 43200000123)]
+    I = Interp(repo)
+    sc = I.module_scope(dt)
+
+    def instance(cname, **attrs):
+        cls = dt.classes.get(cname)
+        if cls is None:
+            raise AnalysisError(f"anchor vanished: {cname}")
+        obj = Obj(cname, OrderedDict(attrs), klass=(dt, cls))
+        return obj
+
+    def decode(obj, raw, ctx):
+        try:
+            out = I.call(I.getattr(obj, "_decode"), [raw, ctx, Const("path")], {})
+            return "value", from_shape(out)
+        except _Raise as e:
+            return "raises", e.what
+        except (ShapeError, NonTermination, RecursionError, Undecided) as e:
+            raise AnalysisError(f"{dt.relpath}:{type_name}._decode cannot be evaluated on {raw!r:.80}: {str(e)[:120]}")
+    type_name = "DatetimeYdms"
+    a = instance("DatetimeYdms")
+    for d in ydms:
+        want = datetime.datetime(d["year"], 1, 1) + datetime.timedelta(days=d["day_of_year"] - 1, milliseconds=d["milliseconds"])
+        kind, got = decode(a, DictS(OrderedDict((k, Const(v)) for k, v in d.items())), Const(None))
+        chk.require(kind == "value" and got == want, "C17-M8", f"{dt.relpath}:DatetimeYdms._decode", f"{d} -> {want.isoformat()}",
+                    f"year {d['year']}, day {d['day_of_year']}, {d['milliseconds']} ms decodes to {got.isoformat() if isinstance(got, datetime.datetime) else got!r:.60} instead of {want.isoformat()}"
+                    f" (decoded after {ydms[ydms.index(d) - 1] if ydms.index(d) else 'nothing'})", key="ydms:value")
+    type_name = "DatetimeYdus"
+    for as_function in (True, False):
+        for ref, us in ydus:
+            rd = Fn("py", impl=lambda I_, a_, kw_, ref=ref: Const(ref), name="<this.sensor_acquisition_date>") if as_function else Const(ref)
+            b = instance("DatetimeYdus", reference_date=rd)
+            want = datetime.datetime.combine(ref.date(), datetime.time.min) + datetime.timedelta(microseconds=us)
+            kind, got = decode(b, Const(us), Obj("Context", OrderedDict(sensor_acquisition_date=Const(ref))))
+            chk.require(kind == "value" and got == want, "C17-M8", f"{dt.relpath}:DatetimeYdus._decode", f"{us} us after midnight of {ref.date()} -> {want.isoformat()}",
+                        f"{us} microseconds with the acquisition date {ref.isoformat()} decodes to {got.isoformat() if isinstance(got, datetime.datetime) else got!r:.60} instead of {want.isoformat()}", key="ydus:value")
